@@ -87,6 +87,15 @@ func c07Observe(e *c07Env, c c07Case, exp c07Expect, perr error) (c07Obs, *c07Vi
 	for _, d := range e.validRegs() {
 		i := match(d.PhantomIp)
 		if i < 0 {
+			// no phantom is expected at all for that family (e.g. the generation is unknown): the
+			// root cause is the condition that fails, not the address
+			slot := 1
+			if d.PhantomIp.To4() != nil {
+				slot = 0
+			}
+			if f := exp.Fam[slot]; f.Phantom == nil && f.FirstFail != "" && f.FirstFail != "no-phantom" {
+				return o, c07V("admit:"+f.FirstFail, "a registration is usable on phantom %v in spite of %s", d.PhantomIp, c07CondString(f))
+			}
 			return o, c07V("admit:unexpected-phantom", "a registration is usable on phantom %v, which is neither the selected nor the registrar-assigned phantom of the message", d.PhantomIp)
 		}
 		if !o.Usable[i] {
